@@ -331,15 +331,15 @@ def strata(tier, seed):
     cs = [dict(shape=s, vs=[v], L=(3 if (tier != 'quick' or np.prod(s) <= 6) else 2)) for s in ([2, 2], [2, 3], [2, 2, 2], [3, 2, 2]) for v in VS]
     if tier != 'quick':
         cs += [dict(shape=[2, 2, 2, 2], vs=[v], L=2) for v in VS] + [dict(shape=[1, 3], vs=[v], L=3) for v in VS]
-    yield Stratum('const', cs, 'const', size=len(cs), chunk=1, bounds={'zero-list length': '<= 3', 'protected': 'every index or none'})
+    yield Stratum('const', cs, 'const', seq=True, size=len(cs), chunk=1, bounds={'zero-list length': '<= 3', 'protected': 'every index or none'})
     ds = [dict(shape=s, vs=[1.0, -2.5, 0.0, 1e-300]) for d in (2, 3, 4) for s in space.shapes([d], [1, 2, 3]) if tier != 'quick' or d < 4 or max(s) <= 2]
-    yield Stratum('delta', ds, 'delta', size=len(ds), chunk=8, bounds={'positions': 'all incl. negative'})
+    yield Stratum('delta', ds, 'delta', seq=True, size=len(ds), chunk=8, bounds={'positions': 'all incl. negative'})
     qs = [dict(kind='vector', q=q, vs=[1.0, -2.0, 0.5, 0.0, 1e-17, -3e-200, 1e200]) for q in range(1, 9)] + \
          [dict(kind='matrix', q=q, vs=[1.0, -3.0, 1e-17, 0.0]) for q in range(1, (4 if tier == 'quick' else 5))]
-    yield Stratum('qtt delta vector / matrix', qs, 'qdelta', size=len(qs), chunk=1, bounds={'vector q': '1..8', 'matrix q': '1..%d' % (3 if tier == 'quick' else 4)})
+    yield Stratum('qtt delta vector / matrix', qs, 'qdelta', seq=True, size=len(qs), chunk=1, bounds={'vector q': '1..8', 'matrix q': '1..%d' % (3 if tier == 'quick' else 4)})
     ps = [dict(shape=s, powers=[0, 1, 2, 3, 25, -1], scales=[1.0, 2.0, -0.5], shifts=[0., 1., -2.5, 0.5, [1., 0.5, 2., 3., 1.], [0.25, -1.5, 1.5, 0.5, 2.], 'intarray'])
           for d in (2, 3, 4) for s in space.shapes([d], [1, 2, 3]) if d < 4 or max(s) <= 2 or tier != 'quick']
-    yield Stratum('poly', ps, 'poly', size=len(ps), chunk=8, bounds={'power': [0, 3]})
+    yield Stratum('poly', ps, 'poly', seq=True, size=len(ps), chunk=8, bounds={'power': [0, 3]})
     rs = []
     for d in (2, 3, 4):
         for s in space.shapes([d], [1, 2, 3]):
@@ -347,7 +347,7 @@ def strata(tier, seed):
                 continue
             rk = [1, 2, 5] + [[1] + list(p) + [1] for p in itertools.product((1, 3), repeat=d - 1)][1:-1]
             rs.append(dict(shape=s, ranks=rk, seeds=[0, 1, 42]))
-    yield Stratum('random constructors', rs, 'rand', size=len(rs), chunk=4, bounds={})
+    yield Stratum('random constructors', rs, 'rand', seq=True, size=len(rs), chunk=4, bounds={})
     bs = [dict(d=d, r=r, noise=noise, seeds=[0, 1]) for d in ((10, 100, 1000) if tier == 'quick' else (10, 100, 1000, 3000)) for r in (1, 2, 5)
           for noise in (1e-15, 1e-8)]
     yield Stratum('rand_stab in high dimension', bs, 'stab_big', size=len(bs), chunk=1, bounds={'d': 'up to 3000'})
